@@ -44,6 +44,12 @@ def run_variant(v, repo):
     tmp = tempfile.mkdtemp(prefix="baize_selftest_")
     try:
         shutil.copytree(os.path.join(repo, "baize"), os.path.join(tmp, "baize"), ignore=shutil.ignore_patterns("__pycache__"))
+        if v.get("base_patch"):
+            # start from a kept behaviour-preserving refactoring (refactorings/<id>/patch.diff), then break it
+            pf = os.path.join(VERIF, "refactorings", v["base_patch"], "patch.diff")
+            r0 = subprocess.run(["patch", "-p1", "-s", "-d", tmp, "-i", pf], capture_output=True, text=True)
+            if r0.returncode != 0:
+                return v, "STALE", f"refactoring {v['base_patch']} does not apply: {r0.stdout[-300:]}"
         edits = v["edits"] if "edits" in v else [(v["file"], v["old"], v["new"])]
         for file, old, new in edits:
             path = os.path.join(tmp, file)
